@@ -98,7 +98,11 @@ def runningBound (n : Nat) (st : St) : Bool := scriptsRunning st ≤ capacity n 
 
 /-! ### workspace locks -/
 
-def Task.unlocks (p : Nat) (x : Task) : Nat := (x.ops.filter (· == .unlock p)).length
+def Op.isUnlock (p : Nat) : Op → Bool
+  | .unlock q => q == p
+  | _ => false
+
+def Task.unlocks (p : Nat) (x : Task) : Nat := (x.ops.filter (Op.isUnlock p)).length
 
 def lockHolders (p : Nat) (st : St) : Nat := tsum (Task.unlocks p) st
 
@@ -117,15 +121,20 @@ def lockInvAt (P : Project) (st : St) (p : Nat) : Bool :=
   (if l.locked then h == 1 && i == 0 else h == 0 && i ≤ 1) &&
   l.waiters.length == tsum (Task.waitingLock P p) st
 
-/-- a script is started, is running or has its `_setAlreadyRun` pending only under the workspace lock -/
-def runUnderLock (P : Project) (x : Task) : Bool :=
-  let rec go : List Op → Bool
-    | [] => true
-    | .run s :: r => r.contains (.unlock (P.info s).path) && go r
-    | .runWait s _ :: r => r.contains (.unlock (P.info s).path) && go r
-    | .underLock s _ :: r => r.contains (.unlock (P.info s).path) && go r
-    | _ :: r => go r
-  go x.ops
+def Op.section? (P : Project) : Op → Option Nat
+  | .run s => some (P.info s).path
+  | .runWait s _ => some (P.info s).path
+  | .underLock s _ => some (P.info s).path
+  | .setRun s _ => some (P.info s).path
+  | _ => none
+
+/-- a script is started, runs or is recorded as run only inside the lock of its workspace: every operation of
+a lock section is followed by the `unlock` of its workspace -/
+def underLockOK (P : Project) : List Op → Bool
+  | [] => true
+  | o :: r => (match o.section? P with | some p => r.contains (.unlock p) | none => true) && underLockOK P r
+
+def runUnderLock (P : Project) (x : Task) : Bool := underLockOK P x.ops
 
 def allPaths (P : Project) : List Nat := (P.steps.map (·.path)).eraseDups
 
@@ -176,11 +185,11 @@ def failureInv (cfg : Cfg) (st : St) : Bool :=
 
 /-! ### dataflow -/
 
-/-- the value every step has in a sequential build: `run s (values of the valid dependencies)` -/
+/-- the value every step has in a sequential build: `run s (values of its inputs)` -/
 def value (P : Project) : Nat → Nat → Nat
   | 0, _ => 0
   | fuel + 1, s =>
-    P.run s (((P.info s).deps.filter fun d => (P.info d).valid).map fun d => value P fuel d)
+    P.run s ((P.info s).bidDeps.map fun d => value P fuel d)
 
 def valueInv (P : Project) (st : St) : Bool :=
   let n := P.steps.length + 1
